@@ -29,7 +29,7 @@ open CV
 
 /-- `unicode.ToLower`, as far as the result can survive the `[a-z0-9_-]` filter -/
 def toLowerGo (c : Char) : Char :=
-  if c = 'K' then 'k' else if c = 'İ' then 'i' else c.toLower
+  if c = '\u212A' then 'k' else if c = '\u0130' then 'i' else c.toLower
 
 /-- one match of the regexp `[a-z0-9_-]` -/
 def isNameChar (c : Char) : Bool := c.isLower || c.isDigit || c == '_' || c == '-'
@@ -146,11 +146,17 @@ def chain (a b : Env) (k : Str) : Option Str :=
   | some v => some v
   | none => b.get k
 
+/-- the lookup of `dotenv.expandVariables`: `lookupFn` first, then the map being filled -/
+def lookThen (look : Str → Option Str) (out : Env) (n : Str) : Option Str :=
+  match look n with
+  | some v => some v
+  | none => out.get n
+
 /-- one env file: `look` is the `lookupFn` handed to the parser, `out` the map being filled -/
 def parseLines (look : Str → Option Str) : List (Str × Str) → Env → Except Err Env
   | [], out => .ok out
   | (k, t) :: ls, out =>
-    match Template.subst (fun n => match look n with | some v => some v | none => out.get n) t with
+    match Template.subst (lookThen look out) t with
     | .ok v => parseLines look ls ((k, v) :: out)
     | .err _ => .error .dotenvParse
     | .panic _ => .error .panic
